@@ -519,7 +519,7 @@ func toPositiveFloat(in *expr.Expression) (f float64, ok bool) {
 // we need this because we want to support lucene expressions like a:b AND "c" which needs a default
 // field to compare "c" against to be valid.
 func wrapLiteral(lit *expr.Expression, field string) *expr.Expression {
-	if lit.Op == expr.Literal && field != "" {
+	if (lit.Op == expr.Literal || lit.Op == expr.Wild || lit.Op == expr.Regexp) && field != "" {
 		return expr.Eq(expr.Column(field), lit)
 	}
 	return lit
